@@ -225,7 +225,7 @@ static int parse_schedule(const char *s) {	// "i:c i:c" -> vs_prefix; options co
 
 int main(int argc, char **argv) {
 	h_init(); h_set_init(&obsset, 256); h_crash_extra = sched_extra; vs_on_fatal = on_fatal;
-	if (argc >= 2 && !strcmp(argv[1], "list")) { for (int i = 0; i < NROWS; i++) { row_name(&ROWS[i], i); printf("ROW %d tier=%d threads=%d bp=%d %s\n", i, ROWS[i].tier, ROWS[i].threads, ROWS[i].bp, rowname); } return 0; }
+	if (argc >= 2 && !strcmp(argv[1], "list")) { for (int i = 0; i < NROWS; i++) { row_name(&ROWS[i], i); printf("ROW %d tier=%d threads=%d bp=%d tbp=-1 %s\n", i, ROWS[i].tier, ROWS[i].threads, ROWS[i].bp, rowname); } return 0; }
 	if (argc < 3) return 2;
 	int ri = atoi(argv[2]); if (ri < 0 || ri >= NROWS) return 2; R = &ROWS[ri]; row_name(R, ri);
 	if (build_file(R->file)) { printf("NOTE cannot build file for row %s\nDONE\n", rowname); return 0; }
